@@ -13,7 +13,7 @@ from urllib import parse
 from vlib.mc import enum as E
 
 PROPERTY = 'C15'
-LEVEL = 'exploration'
+LEVEL = 'model_checking'
 ENGINE = 'C'
 TECHNIQUE = ('stateless bounded model checking: complete enumeration of MAC x prefix, host x port x '
              'default and URL component products against stdlib references and '
